@@ -37,7 +37,12 @@ def check_encodings(case, ctx):
         if frag and case.get("number_types"):
             frag = dict(frag, number_types=case["number_types"])
             ctx.label("number-types:" + case["number_types"])
-        res = rate_values(cfg, teams, dict(opts, **frag), ctx)
+        pre = {"prelude": dict(case["mirror"])} if case.get("mirror") and frag else {}
+        if pre:
+            # the same call was made once before, through the same model, with ONE rank / score replaced by a Decimal or Fraction of exactly
+            # that value (rejected): a table keyed by the outcome values must not have been poisoned for the proper call (osk.model_for)
+            ctx.label("mirror-prelude")
+        res = rate_values(cfg, teams, dict(opts, **frag, **pre), ctx)
         if res != canon:
             raise Violation("enc:" + kind, f"{cfg['kind']} classes={classes} encoding {frag!r} differs from ranks={classes}: {_first_diff(res, canon)}")
         if enc_nontrivial(frag) and (len(set(classes)) < len(classes) or classes != sorted(classes)):
@@ -172,7 +177,10 @@ def enc_cases(draw):
         encs.append([frag, kind])
     opts = {key: v for key, v in g["call"].items() if key in ("tau", "limit_sigma")}
     nt = draw(st.sampled_from([None, None, None, None, "int-subclass", "float-subclass", "both"]))
-    return {"cfg": g["cfg"], "teams": g["teams"], "classes": classes, "opts": opts, "encodings": encs, "meta": g["meta"], "number_types": nt}
+    out = {"cfg": g["cfg"], "teams": g["teams"], "classes": classes, "opts": opts, "encodings": encs, "meta": g["meta"], "number_types": nt}
+    if draw(st.integers(0, 3)) == 0:
+        out["mirror"] = {"op": "fail", "kind": "mirror", "what": "outcome", "as": draw(st.sampled_from(["decimal", "fraction"])), "idx": draw(st.integers(0, 7))}
+    return out
 
 
 @st.composite
